@@ -48,6 +48,10 @@ class C11(ParserSessionProp):
 
         # -- reference: every sentence alone, same configuration
         alone = [session.alone(world, s, cfg) for s in batch]
+        bad = [a for a in alone if a[0] == 'bad']
+        if bad:
+            vio('one_result_per_sentence', f'a sentence parsed alone: {bad[0][1]}', got='alone')
+            return out
 
         if fault.get('kind') == 'F4':
             bump(stats, 'evaluations')
